@@ -677,6 +677,12 @@ func c11Single(c *ctx) error {
 	if c.rng.Intn(4) == 0 {
 		files["deep/er/file"] = c11Bytes(c, 5000) // larger than nothing special; several KiB
 	}
+	if c.rng.Intn(3) == 0 {
+		// many small files: their upload results reach the split's index writer in a burst
+		for i := 0; i < 40+c.rng.Intn(40); i++ {
+			files[fmt.Sprintf("many/f%03d", i)] = c11Content(c.rng.Intn(4))
+		}
+	}
 	bid, err := env.UploadTree(repo, files, 0)
 	if err != nil {
 		return fmt.Errorf("plain upload: %v", err)
